@@ -47,6 +47,27 @@ impl RefMap {
         (line as u32, col as u32)
     }
 
+    /// Byte offset of (line, UTF-16 column); None if the position does not exist in the text.
+    pub fn offset_of(&self, line: u32, col: u32) -> Option<usize> {
+        let start = *self.line_starts.get(line as usize)?;
+        let end = self.line_starts.get(line as usize + 1).copied().unwrap_or(self.text.len());
+        let mut units = 0u32;
+        for (i, c) in self.text[start..end].char_indices() {
+            if units == col {
+                return Some(start + i);
+            }
+            if c == '\n' || c == '\r' {
+                return None;
+            }
+            units += c.len_utf16() as u32;
+        }
+        if units == col {
+            Some(end)
+        } else {
+            None
+        }
+    }
+
     pub fn line_count(&self) -> usize {
         self.line_starts.len()
     }
